@@ -294,7 +294,9 @@ def r3(ctx):
     src = []
     for n in f.own_nodes():
         if isinstance(n, ast.Assign) and text(n.targets[0]) == fv:
-            src.append((text(n.value).replace(" ", ""), gatoms(n)))
+            # cached getters (`owner = self.getOwner()`) read as the getter
+            src.append((pat.inline(ctx, f, n.value).replace(" ", ""),
+                        pat.catoms_of_guards(ctx, f, n)))
     if len(src) == 1 and src[0][0].endswith("(self)") and not src[0][1]:
         # fmt = helper(self): the helper's returns are the sources, its
         # parameter read as `self`
